@@ -54,6 +54,38 @@ def counted (hb : Bytes) (cap : Nat) : List Item → Nat
         | none => counted hb cap rest
     else 0
 
+
+/-! ### one pass of `recvLoop`
+
+What the loop does with the result of one `stream.Read` — `n = it.data.length` bytes and an optional
+error, returned together.  The comparison with the heartbeat payload comes first: a heartbeat is a
+heartbeat whether or not the same read also reports an error. -/
+
+inductive Recv
+  | counted                     -- a heartbeat: `waiting` is incremented, the loop reads on
+  | forward (d : Bytes)         -- queued for the reader, the loop reads on
+  | forwardClose (d : Bytes)    -- queued for the reader (without the error), then the connection closes
+  | close                       -- nothing to forward: the connection closes
+deriving DecidableEq, Repr
+
+def recvStep (hb : Bytes) (cap : Nat) (it : Item) : Recv :=
+  if it.data.length ≤ cap then
+    if it.data = hb then .counted
+    else match it.err with
+      | some _ => if it.data = [] then .close else .forwardClose it.data
+      | none => .forward it.data
+  else .close
+
+/-- `queued`, pass by pass -/
+def queuedBy (hb : Bytes) (cap : Nat) : List Item → List Item
+  | [] => []
+  | it :: rest =>
+    match recvStep hb cap it with
+    | .counted => queuedBy hb cap rest
+    | .forward d => ⟨d, none⟩ :: queuedBy hb cap rest
+    | .forwardClose d => [⟨d, none⟩]
+    | .close => []
+
 /-! ### watchdog -/
 
 structure WD where
